@@ -155,10 +155,10 @@ def c_optN(x: int | None) -> str:
 
 
 def c_frame(f: tuple) -> str:
-    d, cy, nc, lp, sc, lc = f
+    d, cy, nc, lp, sc, lc, sh = f
     lps = C.clist((str(x) for x in lp), "N")
     lcs = C.clist((C.cpair(C.cstr(k), str(v)) for k, v in lc), "(str * N)")
-    return f"(mkframe {d} {cy} {nc} {lps} {sc} {lcs})"
+    return f"(mkframe {d} {cy} {nc} {lps} {sc} {lcs} {C.cbool(sh)})"
 
 
 def c_lop(op: tuple) -> str:
@@ -170,7 +170,7 @@ def c_lop(op: tuple) -> str:
     if k == "E":
         return "Extend"
     if k == "C":
-        return f"EnterCopy {C.cbool(op[1])}"
+        return f"EnterCopy {C.cbool(op[1])} {C.cbool(op[2])}"
     if k == "X":
         return "Exit"
     if k == "A":
@@ -382,7 +382,9 @@ def bufops_oracle(limit: int | None, ops: list[tuple], obs: list[tuple], unl: li
 def snap_ctx(ctx: Any) -> tuple:
     return (ctx._copy_depth, ctx.loop_iteration_carry, ctx.local_namespace_carry,
             [lp.length for lp in reversed(ctx.loops)], ctx.scope.size(),
-            [(k, sys.getsizeof(v, 1)) for k, v in ctx.locals.items()])
+            [(k, sys.getsizeof(v, 1)) for k, v in ctx.locals.items()],
+            # a block-scoped copy continues the loop list of the context it was copied from
+            ctx.parent is not None and ctx.loops is ctx.parent.loops)
 
 
 def run_limops(cfg: tuple, ops: list[tuple]) -> list[tuple]:
@@ -414,7 +416,7 @@ def run_limops(cfg: tuple, ops: list[tuple]) -> list[tuple]:
                 cm.__enter__()
                 stack.append(("cm", cm))
             elif k == "C":
-                new = cur.copy(None, namespace={}, carry_loop_iterations=op[1])
+                new = cur.copy(None, namespace={}, carry_loop_iterations=op[1], block_scope=op[2])
                 stack.append(("copy", cur))
                 chain.append(new)
                 cur = new
@@ -473,7 +475,7 @@ def _valid_limops(r: Any, n: int, alphabet: list[tuple] | None = None) -> list[t
             ops.append(("E",))
             kinds.append("E")
         elif x < 0.76:
-            ops.append(("C", r.random() < 0.85))
+            ops.append(("C", r.random() < 0.85, r.random() < 0.35))
             kinds.append("C")
             copies += 1
         elif x < 0.9:
@@ -510,7 +512,8 @@ def gen_limops(chk: C.Check) -> list[tuple[tuple, list[tuple]]]:
     out: list[tuple[tuple, list[tuple]]] = []
     # exhaustive short sequences over a small alphabet
     v = "xxxx"
-    alpha = [("F", 2), ("F", 3), ("K", 2), ("E",), ("C", True), ("C", False), ("X",),
+    alpha = [("F", 2), ("F", 3), ("K", 2), ("E",), ("C", True, False), ("C", False, False),
+             ("C", True, True), ("X",),
              ("A", "a", sys.getsizeof(v), v), ("L", 2), ("S", 0)]
     cfgs = [(5, 4, 60), (4, None, None), (6, 6, sys.getsizeof(v))]
 
@@ -609,7 +612,7 @@ def limops_oracle(cfg: tuple, ops: list[tuple], obs: list[tuple]) -> str | None:
         elif op[0] == "X":
             if st.pop() == "L":
                 loops.pop()
-        if has_super or any(o2[0] == "C" and not o2[1] for o2 in ops[: i + 1]):
+        if has_super or any(o2[0] == "C" and not o2[1] and not o2[2] for o2 in ops[: i + 1]):
             continue
         prod = 1
         for x in loops:
@@ -764,7 +767,7 @@ class _CM:
             del tr.chain[self.super_idx + 1:]
             tr.suspended.extend(saved)
             tr.brackets.append(("super", saved))
-            if any(c.loops or c.loop_iteration_carry != _base_carry(c) for c in saved):
+            if any(_uncounted_by_parent(c) for c in saved):
                 tr.super_outer_loops = True
         else:
             tr.brackets.append((self.kind,))
@@ -790,15 +793,18 @@ class _CM:
         return r
 
 
-def _base_carry(c: Any) -> int:
-    """The carry a copied context started with (product of its parent's loops)."""
+def _uncounted_by_parent(c: Any) -> bool:
+    """Does context `c` run loops that the context it was copied from does not
+    see? (A carry_loop in c, or loops on a list of its own.)"""
     p = c.parent
     if p is None:
-        return 1
-    n = p.loop_iteration_carry
-    for lp in p.loops:
-        n *= lp.length
-    return n
+        return False
+    shared = c.loops is p.loops
+    base = p.loop_iteration_carry
+    if not shared:
+        for lp in p.loops:
+            base *= lp.length
+    return c.loop_iteration_carry != base or (not shared and len(c.loops) > 0)
 
 
 def install() -> None:
@@ -849,7 +855,7 @@ def install() -> None:
                 return RenderContext.copy(self, token, **kw)
             tr.sync(self)
             tr.need_depth = max(tr.need_depth, self._copy_depth)
-            op = ("C", bool(kw.get("carry_loop_iterations", False)))
+            op = ("C", bool(kw.get("carry_loop_iterations", False)), bool(kw.get("block_scope", False)))
             try:
                 new = RenderContext.copy(self, token, **kw)
             except Exception as e:
@@ -1028,7 +1034,8 @@ def plain_render(env: Any, name: str, data: dict, use_async: bool = False) -> tu
 
 PIECES = ["a", "b", "é", "€", "\U0001f600", "\r\n", "\r", "\n", " ", "-"]
 DATA = {"u1": "é€", "u2": "x\r\ny\rz", "u3": "\U0001f600", "a1": [1], "a2": [1, 2], "a3": [1, 2, 3],
-        "sg": "\ud800", "rows4": [1, 2, 3, 4], "c2": 2, "c0": 0, "c7": 7}
+        "sg": "\ud800", "rows4": [1, 2, 3, 4], "c2": 2, "c0": 0, "c7": 7,
+        "a5": [1, 2, 3, 4, 5]}
 
 
 class PG:
@@ -1290,12 +1297,18 @@ CORPUS = [
      "data": DATA, "shopify": False, "kind": "acyclic"},
     {"id": 'ext-super-3x3x3', "templates": {'base': '{% for i in (1..3) %}{% assign t = 0 | tick %}{% block one %}{% for p in (1..3) %}{% assign t = 2 | tick %}b{% endfor %}{% assign t = 2 | tock %}{% endblock %}{% endfor %}{% assign t = 0 | tock %}', 'main': "{% extends 'base' %}{% block one %}{% for k in (1..3) %}{% assign t = 1 | tick %}{{ block.super }}{% endfor %}{% assign t = 1 | tock %}{% endblock %}"},
      "data": DATA, "shopify": False, "kind": "acyclic"},
+    # loops that are counted in the carry (include-for, tablerow) around block.super: known finding
+    {"id": 'ext-super-in-includefor', "templates": {'base': '{% block one %}{% for i in (1..3) %}{% assign t = 1 | tick %}b{% endfor %}{% assign t = 1 | tock %}{% endblock %}', 'main': "{% extends 'base' %}{% block one %}{% include 'p' for a3 %}{% assign t = 0 | tock %}{% endblock %}", 'p': '{% assign t = 0 | tick %}{{ block.super }}'},
+     "data": DATA, "shopify": False, "kind": "acyclic"},
+    {"id": 'ext-super-in-tablerow', "templates": {'base': '{% block one %}{% for i in (1..3) %}{% assign t = 1 | tick %}b{% endfor %}{% assign t = 1 | tock %}{% endblock %}', 'main': "{% extends 'base' %}{% block one %}{% tablerow r in a3 cols: c2 %}{% assign t = 0 | tick %}{{ block.super }}{% endtablerow %}{% assign t = 0 | tock %}{% endblock %}"},
+     "data": DATA, "shopify": True, "kind": "acyclic"},
 ]
 
 # known findings: block.super renders the parent block with the outer context
 SUPER_LOOP = {"id": "block-super-loop", "templates": {
     "base": "{% block one %}{% for i in (1..5) %}{% assign t = 1 | tick %}b{% endfor %}{% assign t = 1 | tock %}|{% endblock %}",
-    "main": "{% extends 'base' %}{% block one %}{% for k in (1..5) %}{% assign t = 0 | tick %}{{ block.super }}{% endfor %}{% assign t = 0 | tock %}{% endblock %}"},
+    "main": "{% extends 'base' %}{% block one %}{% include 'p' for a5 %}{% assign t = 0 | tock %}{% endblock %}",
+    "p": "{% assign t = 0 | tick %}{{ block.super }}"},
     "data": DATA, "shopify": False, "kind": "acyclic"}
 SUPER_NS = {"id": "block-super-namespace", "templates": {
     "base": "{% block one %}{% assign z = 'zzzzzzzzzzzzzzzzzzzzzzzzzzzzzzzzzzzzzzzz' %}{% endblock %}",
@@ -1641,7 +1654,7 @@ def main(chk: C.Check, build: C.Build) -> None:
     evaluations += 1
     if res["outcome"] == "ok" and res["nest"] > 10:
         chk.finding("block-super-loop-escape",
-                    f"for (5) around {{{{ block.super }}}} whose parent block loops 5 times: "
+                    f"include-for (5) around {{{{ block.super }}}} whose parent block loops 5 times: "
                     f"{res['nest']} iterations under loop_iteration_limit 10, no error "
                     "(Coq witness c06_loop_nest_bounded_refuted)",
                     {"templates": SUPER_LOOP["templates"], "loop_iteration_limit": 10, "ticks": res["ticks"]})
